@@ -392,3 +392,46 @@ def subtrees(a, acc):
         acc.append(a)
     subtrees(a[1], acc); subtrees(a[2], acc)
     return acc
+
+
+def gen_typed(rng, depth, want='num'):
+    """expressions in which truth values and numbers are not mixed: conditions, operands of and / or / xor / not are
+    boolean; operands of arithmetic, relations and functions are numbers"""
+    if want == 'bool':
+        if depth <= 0:
+            return (rng.choice(REL), leaf_num(rng), leaf_num(rng))
+        k = rng.choice(REL * 2 + LOGIC + ['NOT', 'CONST'])
+        if k in REL:
+            return (k, gen_typed(rng, depth - 1), gen_typed(rng, depth - 1))
+        if k in LOGIC:
+            return (k, gen_typed(rng, depth - 1, 'bool'), gen_typed(rng, depth - 1, 'bool'))
+        if k == 'NOT':
+            return ('NOT', gen_typed(rng, depth - 1, 'bool'), None)
+        return (rng.choice(['TRUE', 'FALSE']), None, None)
+    if depth <= 0 or rng.random() < 0.12:
+        return leaf_num(rng)
+    k = rng.choice(['PLUS', 'MINUS', 'TIMES', 'DIVIDE'] * 4 + ['UPLUS', 'UMINUS'] * 2 + ['POWER', 'ROOT', 'ROOTD', 'LOG', 'LOGB'] + ['PIECEWISE'] * 4 + FUN2 + ['F1'] * 4)
+    g = lambda: gen_typed(rng, depth - 1)
+    b = lambda: gen_typed(rng, depth - 1, 'bool')
+    if k in ('PLUS', 'MINUS', 'TIMES', 'DIVIDE', 'POWER') or k in FUN2:
+        return (k, g(), g())
+    if k == 'UPLUS': return ('PLUS', g(), None)
+    if k == 'UMINUS': return ('MINUS', g(), None)
+    if k == 'ROOT': return ('ROOT', g(), None)
+    if k == 'ROOTD': return ('ROOT', ('DEGREE', g(), None), g())
+    if k == 'LOG': return ('LOG', g(), None)
+    if k == 'LOGB': return ('LOG', ('LOGBASE', g(), None), g())
+    if k == 'F1': return (rng.choice(FUN1), g(), None)
+    n = rng.randint(1, 3)
+    pieces = [('PIECE', g(), b()) for _ in range(n)]
+    other = ('OTHERWISE', g(), None) if rng.random() < 0.6 else None
+    return chain(pieces, other)
+
+
+def leaf_num(rng):
+    r = rng.random()
+    if r < 0.55:
+        return ('ci', rng.choice(VARS))
+    if r < 0.93:
+        return ('cn', rng.choice(NUMS))
+    return (rng.choice(['E', 'PI']), None, None)
